@@ -31,6 +31,9 @@ def check(ctx):
     _interp(ctx)
     _reconstruction(ctx)
     _export_rank(ctx)
+    # a memoised view must be keyed by everything that selects it (a cache slot shared by several views makes the value depend on access order)
+    from ..dispatch import check_cache_keys
+    check_cache_keys(ctx, rule="R5-cache-key", about=("other",))
     table_purity(ctx)
     ctx.trust("E4 partial evaluation of __getattr__", "L12 np.interp", "L13 copy/pickle protocol on a blank instance", "L14 rank of np.array(list, dtype=object)")
     ctx.assume("exact arithmetic; generic branch of guarded quotients")
